@@ -178,6 +178,10 @@ impl<SystemType : System> SysCache<SystemType>
             {
                 match system.rename(&cache_path, &target_path)
                 {
+                    /*  Cache entries are shared between rule threads: another rule may have taken this one
+                        between the check above and the rename.  That is "not there", not a malfunction. */
+                    Err(SystemError::NotFound) => RestoreResult::NotThere,
+                    Err(SystemError::RenameFromNonExistent) => RestoreResult::NotThere,
                     Err(error) => RestoreResult::SystemError(error),
                     Ok(()) => RestoreResult::Done
                 }
